@@ -465,6 +465,12 @@ def check_handover(case):
             counts[k] = counts.get(k, 0) + 1
         dup = sorted(k for k, c in counts.items() if c > 1)
         must = logged
+        # the buffer keeps the most recent 1000: when the threads' messages may have been buffered on top of a full
+        # buffer, the oldest ones may have been dropped (and only those)
+        overflow = max(0, len([k for k in logged if not k.startswith("post.")]) - 1000)
+        if overflow:
+            optional = set([k for k in logged if k.startswith("pre.")][:overflow])
+            must = [k for k in logged if k not in optional]
         if s.second and i >= 1:
             # registered by the raced (second) add: messages logged concurrently with it may or may not arrive, the
             # ones logged before the first add must not, the ones logged after it returned must
@@ -502,7 +508,7 @@ def check_handover(case):
 
 
 def classify_handover(case, info):
-    labels = ["ndest=%d" % info["ndest"], "loggers=%d" % len(case["loggers"]), "pre=%d" % min(info["pre"], 2), "switches=%d" % min(info["switches"], 6)]
+    labels = ["ndest=%d" % info["ndest"], "loggers=%d" % len(case["loggers"]), "pre=%s" % (min(info["pre"], 2) if info["pre"] < 900 else "buffer-full"), "switches=%d" % min(info["switches"], 6)]
     if info["switch_inside"]:
         labels.append("preempted-inside-send-or-add")
     labels.append("granularity:bytecode" if case.get("opcodes") else "granularity:line")
@@ -520,7 +526,7 @@ def handover_strategy():
         st.sampled_from([0, 0, 2, 3]),
         st.sampled_from([False, False, True]),
         st.sampled_from([False, False, True]),
-        st.integers(0, 2),
+        st.sampled_from([0, 1, 2, 0, 1, 2, 0, 1, 2, 999, 1000]),
         st.integers(1, 3),
         st.just(False),  # concurrent remove is outside the property's schedule quantifier (see DESIGN.md section 9)
         sched.plans(max_segments=8, max_steps=25, workers=3),
@@ -549,6 +555,11 @@ def handover_enum_runner(mod, facet, tier, seed, shard, nshards, stats):
     # a later add_destinations racing a logging thread (the first add was done before)
     for plan in sched.single_preemption_plans(2, depth):
         cases.append({"second_add": True, "pre": 1, "ndest": 2, "plan": plan, "loggers": [[2, 0]]})
+    # a full buffer: the logging thread is preempted at k, the adder gets as far as some point of its re-delivery, the
+    # logging thread finishes, the adder finishes
+    for k in range(0, 34):
+        for j in (30, 70):
+            cases.append({"pre": 1000, "ndest": 1, "plan": [[k, 1], [j, 0], [10**6, 1], [10**6, 0]], "loggers": [[1, 0]]})
     # bytecode granularity: either thread preempted before every instruction, once
     for pre in (0, 1):
         for a, b in ((0, 1), (1, 0)):
